@@ -8,9 +8,22 @@ import JominiModel.Proofs.BinDeNested
 import JominiModel.Proofs.BinEndToEndLex
 import JominiModel.Proofs.BinEndToEndAll
 import JominiModel.Proofs.BinDeMixed
+import JominiModel.Proofs.BinDeMisfit
 /-
 C04 — binary deserialization agrees across tape, on-demand and streaming paths.
 Helper lemmas: Proofs/BinDe.lean (dispatch), Proofs/BinDeSeq.lean (sequential readers).
+
+WHAT THE THEOREMS ESTABLISH.  The reference `valueOfBin` (Spec/BinDoc.lean) is a structural traversal of the abstract
+document; its LEAF clauses - integers and booleans verbatim, floats through the flavor, strings through the encoding,
+token ids through the resolver or the configured fallback, then what the target type accepts - are assembled from the
+same functions as the path models (`valLeaf` = `leafPrim` / `idPrim` / `visitF32` / `visitF64` / `decode1252` /
+`visitPrim` of Model/BinDe.lean).  So on a leaf the agreement "model = reference" holds by shared definition (plus the
+dispatch case analysis of `C04_token_dispatch`); what is PROVED here is (a) that the three paths - one index-linked tape,
+two lexeme streams read with different primitives (token reader with rgb pre-parsing, on-demand lexer with id-only
+peeking, skipping by balancedness, ghost objects, the optional `=`) - perform the SAME traversal and bookkeeping (maps,
+structs with duplicate / missing / unknown fields, token-attribute structs, sequences, Options, colours), and (b) that this
+traversal is the reference's.  The leaf functions themselves are tied to the Rust code by the correspondence check
+(every model against its real path on generated inputs) and, for floats and the code page, by measured tables.
 -/
 namespace Jomini.Props.C04
 open Jomini Jomini.BinDe
@@ -106,17 +119,11 @@ example : Plain [.id 8192, .equal, .open, .i32 1, .i32 2, .close, .open, .close,
   intro t ht; simp at ht; rcases ht with rfl | rfl | rfl | rfl | rfl | rfl | rfl | rfl | rfl | rfl | rfl <;> simp [plainTok, RGB_ID]
 
 /-
-FULL STATEMENTS (not proved as a whole; covered by the correspondence check and the implementation
-oracle: `bde_spec` compares all three real paths with the Rust twin of `valueOfBin`; `bde_toks` /
-`bde_tapeof` tie `tokensOf` / `tapeOf` to the real Lexer / BinaryTape):
-  C04_tape_eq_ondemand : WellFormed d → Fits ty d → tapeOf d = some tp →
-                           deTape c ty tp = deOndemand c ty (tokensOf d)
-  C04_eq_spec          : WellFormed d → Fits ty d → deStream c ty (tokensOf d) = valueOfBin c ty d
-Proved below: both, for FLAT documents (every field `key = leaf`, no ghost objects, no reserved
-lexeme) read as a map of any leaf-like value type — every resolver, strategy, key/value token kind,
-duplicate keys included.  Missing: nested containers (induction over `BNode` with the tape's index
-arithmetic and the fuel bound), struct requests (the slot bookkeeping is shared code, the loop
-differs), rgb values, ghost objects.
+The FLAT statements below (`…_partial`: every field `key = leaf`, map of a leaf-like value type) were the first step and are
+kept as corollaries.  The full statements are proved: `C04_tape_eq_ondemand` / `C04_eq_spec_seq` / `C04_eq_spec_tape`
+(nested documents to any depth, rgb values, ghost objects, empty containers, duplicate keys; map, struct and
+token-attribute struct roots; every resolver and strategy) and, from the BYTES, `C04_paths_end_to_end`; they are restated
+at the end of this file together with the tightness of their hypothesis `fitsRoot` (`C04_fits_or_misfit`).
 -/
 theorem C04_tape_eq_ondemand_partial (c : Cfg) (vt : Ty) (hvt : LeafTy vt) (d : BDoc) (h : Flat d) :
     tapeOf d = some (tapeFields d 0) ∧
@@ -147,5 +154,44 @@ theorem C04_mixed_tape_key_struct : type_of% @BinDe.C04_mixed_tape_key_struct :=
 /-- NEGATIVE: on `a = { b = 1  c 2 }` read as `map(map(i32))` the sequential path models answer `{a={b=1,c=2}}`, the
 tape path model `invalid type` (the real code does the same: known finding mixed-container-paths-disagree). -/
 theorem C04_mixed_paths_differ : type_of% @BinDe.C04_mixed_paths_differ := @BinDe.C04_mixed_paths_differ
+
+/-- (C04, nested documents, all three paths = reference) restated from Proofs/BinDeNestedSeq.lean. -/
+theorem C04_tape_eq_ondemand : type_of% @BinDe.C04_tape_eq_ondemand := @BinDe.C04_tape_eq_ondemand
+
+/-- (C04 end to end from the BYTES) restated from Proofs/BinEndToEndAll.lean. -/
+theorem C04_paths_end_to_end : type_of% @BinDe.C04_paths_end_to_end := @BinDe.C04_paths_end_to_end
+
+/-- the hypotheses of `C04_paths_end_to_end` are satisfiable on a rich document:
+`a = { n = -5  {} col = rgb { 1 2 3 }  list = { { x = yes } {} 7 } }  {} name = "eng"  0x2000 = { }` (nested objects, an
+array of an object, an empty container and a scalar, an rgb value, ghost objects inside and at the root, a token id key),
+read as `struct { a: struct { n: i64, col: Vec<any>, list: Vec<IgnoredAny> }, name: String, k: Vec<i32> }` with the resolver knowing
+`0x2000` as `k`. -/
+example :
+    let D : BinTape.Fields :=
+      .cons 0 (.unquoted [97])
+        (.obj (.cons 0 (.unquoted [110]) (.sc (.i32 [251, 255, 255, 255]))
+          (.cons 1 (.unquoted [99, 111, 108]) (.rgb [1, 0, 0, 0] [2, 0, 0, 0] [3, 0, 0, 0] none)
+            (.cons 0 (.unquoted [108, 105, 115, 116])
+              (.arr (.cons (.obj (.cons 0 (.unquoted [120]) (.sc (.bool 1)) .nil)) (.cons (.arr .nil) (.cons (.sc (.i32 [7, 0, 0, 0])) .nil)))) .nil))))
+        (.cons 1 (.unquoted [110, 97, 109, 101]) (.sc (.quoted [101, 110, 103]))
+          (.cons 0 (.id 8192) (.arr .nil) .nil))
+    let ty : RootTy := .plain (.struct (.cons "a" 0 (.struct (.cons "n" 0 .i64 (.cons "col" 0 (.seq .any) (.cons "list" 0 (.seq .ign) .nil))))
+      (.cons "name" 0 .str (.cons "k" 0 (.seq .i32) .nil))))
+    let c : Cfg := ⟨.error, [(8192, [107])]⟩
+    noMixedF D = true ∧ D.wfDoc = true ∧ canonF D = true ∧ fitsRoot c ty (toBDoc D) = true ∧
+      (valueOfBin c ty (toBDoc D)).toOption =
+        some "{a={n=i-5,col=[s726762,[u1,u2,u3]],list=[ign,ign,ign]},name=s656e67,k=[]}" := by
+  decide +kernel
+
+/-- TIGHTNESS of the hypothesis `fitsRoot`: for every document and every root request, the request fits or the traversal
+meets one of five named shape / type combinations (`Misfit`); each has a witness on which a path differs from another path
+or from the reference (below). -/
+theorem C04_fits_or_misfit : type_of% @BinDe.C04_fits_or_misfit := @BinDe.C04_fits_or_misfit
+
+theorem C04_misfit_rgbAsMap : type_of% @BinDe.C04_misfit_rgbAsMap := @BinDe.C04_misfit_rgbAsMap
+theorem C04_misfit_arrayAsMap : type_of% @BinDe.C04_misfit_arrayAsMap := @BinDe.C04_misfit_arrayAsMap
+theorem C04_misfit_objectAsAny : type_of% @BinDe.C04_misfit_objectAsAny := @BinDe.C04_misfit_objectAsAny
+theorem C04_misfit_objectAsSeq : type_of% @BinDe.C04_misfit_objectAsSeq := @BinDe.C04_misfit_objectAsSeq
+theorem C04_misfit_rgbInArray : type_of% @BinDe.C04_misfit_rgbInArray := @BinDe.C04_misfit_rgbInArray
 
 end Jomini.Props.C04
